@@ -54,7 +54,9 @@ fn format_field(name: &str, value: &str) -> String {
         | "Enhances"
         | "Pre-Depends"
         | "Breaks" => {
-            let relations: Relations = value.parse().unwrap();
+            // Substitution variables (${misc:Depends}) are part of a control file
+            let (relations, errors) = Relations::parse_relaxed(value, true);
+            assert!(errors.is_empty(), "{}", errors.join("\n"));
             let relations = relations.wrap_and_sort();
             relations.to_string()
         }
